@@ -273,6 +273,13 @@ def instance_pool(ctx, cirq, rng):
     pool.append(('gen/tagged-nested', cirq.TaggedOperation(cirq.TaggedOperation(cirq.X(qa_), 'inner'), 'outer')))
     pool.append(('gen/tagged-nested-circuit', cirq.Circuit(cirq.TaggedOperation(cirq.TaggedOperation(cirq.CZ(qa_, cirq.LineQubit(1)), 'inner'), 'outer'), cirq.TaggedOperation(cirq.H(qa_)))))
     pool.append(('gen/tagged-controlled', cirq.TaggedOperation(cirq.X(qa_).with_classical_controls('k'), 't')))
+    pool.append(('gen/tuple-tag-op', cirq.X(qa_).with_tags(('a', 1), 'plain')))
+    pool.append(('gen/tuple-tag-circuit', cirq.Circuit(cirq.X(qa_), tags=[('c', (2, 'x'))])))
+    pool.append(('gen/tuple-tag-frozen', cirq.FrozenCircuit(cirq.Moment(cirq.X(qa_), tags=[('m', 0)]), tags=[('f', 1)])))
+    fc_ = cirq.FrozenCircuit(cirq.X(qa_))
+    pool.append(('gen/circuit-op-ids-unused', cirq.CircuitOperation(fc_, repetitions=2, repetition_ids=['a', 'b']).replace(use_repetition_ids=False)))
+    pool.append(('gen/circuit-op-symbolic-ids', cirq.CircuitOperation(fc_, repetitions=sympy.Symbol('r'), use_repetition_ids=True)))
+    pool.append(('gen/circuit-op-default-ids', cirq.CircuitOperation(fc_, repetitions=2, use_repetition_ids=True)))
     pool.append(('gen/noise-prepend', cirq.ConstantQubitNoiseModel(cirq.bit_flip(0.1), prepend=True)))
     pool.append(('gen/noise-append', cirq.ConstantQubitNoiseModel(cirq.amplitude_damp(0.2))))
     pool.append(('gen/noise-like', cirq.NoiseModel.from_noise_model_like(cirq.depolarize(0.05))))
